@@ -34,7 +34,10 @@ class Call:
         """dict argument-name -> value, defaults applied."""
         if self._sig is None:
             try:
-                ba = inspect.signature(self.func).bind(*self.args, **self.kwargs)
+                sig = _sig_cache.get(self.func)
+                if sig is None:
+                    sig = _sig_cache[self.func] = inspect.signature(self.func)
+                ba = sig.bind(*self.args, **self.kwargs)
                 ba.apply_defaults()
                 self._sig = dict(ba.arguments)
             except Exception:
@@ -43,6 +46,7 @@ class Call:
 
 
 _counters = {}
+_sig_cache = {}
 
 
 def evaluations():
